@@ -87,10 +87,10 @@ P("C09", [f"{RED}:get_multiplier_sequence"], "bounded/C09.py",
   "Proof core: the zoom plan (three loops with invariants and a variant): every non-base resolution is derived from the LARGEST smaller member dividing it with multiplier >= 2, a supplied base is never re-derived, and a non-derivable member is refused exactly. Bounded stand-in for the rest (plan level: all subsets of resolutions x bases; file level against direct coarsening).",
   level="other", unverified=["get_multiplier_sequence", "zoomify_cooler"])
 
-P("C10", [], "bounded/C10.py", "Bounded stand-in only so far.", level="other",
-  unverified=["_balance.* filters and loops", "balance_cooler"])
+P("C10", [f"{BAL}:_init", f"{BAL}:_binarize", f"{BAL}:_zero_diags", f"{BAL}:_zero_trans", f"{BAL}:_zero_cis", f"{BAL}:_timesouterproduct"], "bounded/C10.py", "Proof core: the per-pixel filters of the balancing pipeline are verified elementwise for every chunk (which pixels are zeroed: |bin1-bin2| < n_diags strictly, trans / cis by the chromosome of the two bins; binarisation; weighting by vec[bin1]*vec[bin2]) together with their frame (no filter writes the shared chunk; _init returns a fresh copy). Bin-level masks, the iteration and the flatness bound are covered by the bounded tier only.", level="other",
+  unverified=["_marginalize (bincount)", "_balance_genomewide/_cisonly/_transonly loops", "balance_cooler masks (min_nnz, min_count, MAD)"])
 
-P("C11", [f"{UT}:partition"], "bounded/C11.py", "Proof core: util.partition tiles [start, stop) exactly for every step (used for the per-chromosome spans of cis-only balancing). Bounded stand-in for the rest.", level="other",
+P("C11", [f"{UT}:partition", f"{BAL}:_init", f"{BAL}:_zero_diags", f"{BAL}:_timesouterproduct"], "bounded/C11.py", "Proof core: util.partition tiles [start, stop) exactly for every step (used for the per-chromosome spans of cis-only balancing). Bounded stand-in for the rest.", level="other",
   unverified=["balance_cooler spans", "parallel.split/MultiplexDataPipe", "chunkgetter"])
 
 P("C12", [f"{RQ}:CSRReader.__call__"], "bounded/C12.py",
@@ -99,8 +99,8 @@ P("C12", [f"{RQ}:CSRReader.__call__"], "bounded/C12.py",
   "x weight columns with NaNs x output forms x conventions).", level="other",
   unverified=["api.matrix weighting branches", "Cooler.matrix divisive default", "dump --balanced annotator"])
 
-P("C13", [], "bounded/C13.py", "Bounded stand-in only so far (fault injection at every chunk index).", level="other",
-  unverified=["_validate_pixels", "create() exceptional postcondition and frame"])
+P("C13", [f"{ING}:_validate_pixels"], "bounded/C13.py", "Proof core: the default validator accepts a chunk iff it has no out-of-range id, no lower-triangle pixel (symmetric mode) and no in-chunk duplicate, raises BadInputError exactly otherwise, and returns the records unchanged (pandas duplicated/sort_values by assumed contract). The no-cooler-after-failure and frame clauses are covered by the bounded tier (fault injection at every chunk index).", level="other",
+  unverified=["create() exceptional postcondition and frame (ghost HDF5 model not built)"])
 
 P("C14", [f"{SEL}:_IndexingMixin._process_slice"], "bounded/C14.py",
   "Proof core: slice/scalar normalisation of every table selector for all integer bounds; row reads and annotate "
